@@ -55,7 +55,7 @@ from typing import Any, Dict, List, Optional, Tuple
 
 from hypothesis import strategies as st
 
-from ..core import CaseResult, Family, HarnessError, Violation
+from ..core import CaseResult, Family, HarnessError, Violation, pick
 from ..engines import memwire, sftpmodel as sm
 from ..engines.memwire import asyncssh
 
@@ -431,26 +431,26 @@ def size_strategy(bs: int, mr: int, cap_bytes: int = CAP_BYTES,
             bs * (mr + 1), bs * (mr + 1) + 1, 2 * bs * mr - 1, 2 * bs * mr,
             2 * bs * mr + 1, 3 * bs * mr + 1]
     base = sorted({min(max(b, 0), cap) for b in base})
-    return st.one_of(st.sampled_from(base), st.integers(0, min(cap, 200)))
+    return st.one_of(pick(base), st.integers(0, min(cap, 200)))
 
 
 SHORTS = st.one_of(
     st.just([0]),
-    st.lists(st.sampled_from([0, 0, 1, 2, 3, 6, 63, 100, 16383]),
+    st.lists(pick([0, 0, 1, 2, 3, 6, 63, 100, 16383]),
              min_size=1, max_size=5))
 
 
 def plan_strategy(nreq_hint: int, short: List[int]):
     return st.fixed_dictionaries({
-        'hold': st.sampled_from([1, 2, 3, 5, 17, 1000, 1000]),
+        'hold': pick([1, 2, 3, 5, 17, 1000, 1000]),
         'order': st.lists(st.integers(0, 200), min_size=1, max_size=6),
-        'burst': st.lists(st.sampled_from([1, 1, 2, 3, 5, 128]), min_size=1,
+        'burst': st.lists(pick([1, 1, 2, 3, 5, 128]), min_size=1,
                           max_size=4),
         'short': st.just(short),
         'fail': st.one_of(
             st.just([]), st.just([]),
             st.lists(st.tuples(st.integers(0, max(1, min(nreq_hint, 40))),
-                               st.sampled_from(sm.ERROR_CODES)).map(list),
+                               pick(sm.ERROR_CODES)).map(list),
                      min_size=1, max_size=2, unique_by=lambda t: t[0])),
     })
 
@@ -458,16 +458,16 @@ def plan_strategy(nreq_hint: int, short: List[int]):
 def xfer_strategy(tier: str):
     @st.composite
     def build(draw):
-        op = draw(st.sampled_from(['get', 'get', 'get', 'put', 'put', 'copy',
+        op = draw(pick(['get', 'get', 'get', 'put', 'put', 'copy',
                                    'copy', 'mget', 'getdir', 'mcopy',
                                    'mput']))
         limits = draw(st.one_of(
             st.none(), st.none(),
-            st.tuples(st.sampled_from([1, 2, 5, 7, 64, 100, 16384]),
-                      st.sampled_from([1, 2, 5, 7, 64, 100, 16384]))
+            st.tuples(pick([1, 2, 5, 7, 64, 100, 16384]),
+                      pick([1, 2, 5, 7, 64, 100, 16384]))
             .map(list)))
-        bs = draw(st.sampled_from(BLOCK_SIZES + ([-1] if limits else [])))
-        mr = draw(st.sampled_from(MAX_REQUESTS + [-1]))
+        bs = draw(pick(BLOCK_SIZES + ([-1] if limits else [])))
+        mr = draw(pick(MAX_REQUESTS + [-1]))
         eff_bs = bs if bs > 0 else (min(limits) if limits else 16384)
         ranges = draw(st.booleans())
         copy_data = op in ('copy', 'mcopy') and draw(st.booleans())
@@ -489,7 +489,7 @@ def xfer_strategy(tier: str):
                                (eff_bs, eff_bs + 1, 2 * eff_bs - 1,
                                 size - eff_bs, size - 1, size // 2)})
                 fi['cuts'] = sorted(set(draw(st.lists(
-                    st.one_of(st.integers(0, size), st.sampled_from(near)),
+                    st.one_of(st.integers(0, size), pick(near)),
                     min_size=1, max_size=6))))
                 fi['last_data'] = draw(st.integers(0, 3)) > 0
 
@@ -497,7 +497,7 @@ def xfer_strategy(tier: str):
                     draw(st.integers(0, 5)) == 0:
                 fi['true_len'] = draw(st.one_of(
                     st.integers(0, size - 1),
-                    st.sampled_from(sorted({0, size - 1, max(
+                    pick(sorted({0, size - 1, max(
                         0, size - eff_bs), min(size - 1, eff_bs)}))))
 
             files.append(fi)
@@ -506,9 +506,9 @@ def xfer_strategy(tier: str):
         nreq = nblk * (2 if op in ('copy', 'mcopy') else 1)
 
         return {'op': op, 'bs': bs, 'mr': mr, 'sparse': sparse,
-                'version': draw(st.sampled_from([3, 3, 3, 4, 5, 6])),
+                'version': draw(pick([3, 3, 3, 4, 5, 6])),
                 'limits': limits, 'copy_data': copy_data, 'ranges': ranges,
-                'rpr': draw(st.sampled_from([1, 2, 128])),
+                'rpr': draw(pick([1, 2, 128])),
                 'files': files, 'plan': draw(plan_strategy(nreq, short))}
 
     return build()
@@ -932,8 +932,8 @@ def ops_strategy(bs_eff: int, mr_eff: int, cap: int, max_ops: int,
                     2 * bs_eff + 1, 3 * bs_eff - 1, bs_eff * mr_eff,
                     bs_eff * mr_eff + 1, bs_eff * (mr_eff + 1) + 1,
                     2 * bs_eff * mr_eff + 1)})
-    length = st.one_of(st.sampled_from(near), st.integers(0, min(cap, 100)))
-    offset = st.one_of(st.sampled_from(near), st.integers(0, min(cap, 100)))
+    length = st.one_of(pick(near), st.integers(0, min(cap, 100)))
+    offset = st.one_of(pick(near), st.integers(0, min(cap, 100)))
     opt_off = st.one_of(st.none(), offset)
     rlen = st.one_of(length, length, st.just(-1))
     seek = st.one_of(
@@ -959,11 +959,11 @@ def file_strategy(tier: str):
     def build(draw):
         limits = draw(st.one_of(
             st.none(), st.none(),
-            st.tuples(st.sampled_from([1, 2, 5, 7, 64, 100, 16384]),
-                      st.sampled_from([1, 2, 5, 7, 64, 100, 16384]))
+            st.tuples(pick([1, 2, 5, 7, 64, 100, 16384]),
+                      pick([1, 2, 5, 7, 64, 100, 16384]))
             .map(list)))
-        bs = draw(st.sampled_from(BLOCK_SIZES + [None, -1]))
-        mr = draw(st.sampled_from(MAX_REQUESTS + [-1]))
+        bs = draw(pick(BLOCK_SIZES + [None, -1]))
+        mr = draw(pick(MAX_REQUESTS + [-1]))
 
         if bs is None:
             bs_eff = 64
@@ -979,8 +979,8 @@ def file_strategy(tier: str):
         init = draw(size_strategy(bs_eff, mr_eff, cap, unit))
         nreq = 2 * (init // bs_eff + 1)
 
-        return {'mode': draw(st.sampled_from(MODES)), 'bs': bs, 'mr': mr,
-                'version': draw(st.sampled_from([3, 3, 3, 4, 5, 6])),
+        return {'mode': draw(pick(MODES)), 'bs': bs, 'mr': mr,
+                'version': draw(pick([3, 3, 3, 4, 5, 6])),
                 'limits': limits, 'init_size': init,
                 'seed': draw(st.integers(0, 250)),
                 'known_shapes': draw(st.integers(0, 11)) == 0,
@@ -1200,23 +1200,23 @@ def real_strategy(tier: str):
 
     @st.composite
     def build(draw):
-        op = draw(st.sampled_from(['get', 'put', 'copy', 'file', 'file']))
-        version = draw(st.sampled_from([3, 4, 5, 6]))
+        op = draw(pick(['get', 'put', 'copy', 'file', 'file']))
+        version = draw(pick([3, 4, 5, 6]))
         short = draw(st.one_of(
             st.just([0]),
-            st.lists(st.sampled_from([0, 0, 1, 3, 63, 1000, 4095]),
+            st.lists(pick([0, 0, 1, 3, 63, 1000, 4095]),
                      min_size=1, max_size=4)))
 
         if op == 'file':
-            bs = draw(st.sampled_from(BLOCK_SIZES + [None, -1]))
-            mr = draw(st.sampled_from(MAX_REQUESTS + [-1]))
+            bs = draw(pick(BLOCK_SIZES + [None, -1]))
+            mr = draw(pick(MAX_REQUESTS + [-1]))
             bs_eff = 64 if bs is None else 16384 if bs == -1 else bs
             mr_eff = mr if mr > 0 else 16
             unit = cost_unit(bs_eff, None, short)
             cap = min(CAP_BLOCKS * unit // 2, 100000)
 
             return {'op': op, 'version': version, 'short': short,
-                    'mode': draw(st.sampled_from(MODES)), 'bs': bs, 'mr': mr,
+                    'mode': draw(pick(MODES)), 'bs': bs, 'mr': mr,
                     'init_size': draw(size_strategy(bs_eff, mr_eff, cap,
                                                     unit)),
                     'seed': draw(st.integers(0, 250)),
@@ -1224,14 +1224,14 @@ def real_strategy(tier: str):
                                              False))}
 
         sparse_file = draw(st.booleans())
-        mr = draw(st.sampled_from(MAX_REQUESTS + [-1]))
+        mr = draw(pick(MAX_REQUESTS + [-1]))
 
         if sparse_file:
-            bs = draw(st.sampled_from([512, 4096, 5000, 16384, -1]))
+            bs = draw(pick([512, 4096, 5000, 16384, -1]))
             short = [v for v in short if v == 0 or v >= 63] or [0]
             fi = {'pages': draw(st.lists(st.booleans(), min_size=1,
                                          max_size=6)),
-                  'tail': draw(st.sampled_from([0, 0, 1, 100, 4095])),
+                  'tail': draw(pick([0, 0, 1, 100, 4095])),
                   'tail_data': draw(st.booleans()),
                   'seed': draw(st.integers(0, 250))}
 
@@ -1241,7 +1241,7 @@ def real_strategy(tier: str):
                 fi['pages'][-1] = True
                 fi['tail_data'] = True
         else:
-            bs = draw(st.sampled_from(BLOCK_SIZES + [-1]))
+            bs = draw(pick(BLOCK_SIZES + [-1]))
             fi = {'size': draw(size_strategy(
                 bs, mr if mr > 0 else 128, 100000,
                 cost_unit(bs if bs > 0 else 16384, None, short))),
@@ -1250,7 +1250,7 @@ def real_strategy(tier: str):
             if op == 'copy' and draw(st.integers(0, 2)) == 0:
                 # the server copies in 256 KiB pieces (one request per data
                 # range, so the cost does not depend on block_size)
-                fi['size'] = draw(st.sampled_from(
+                fi['size'] = draw(pick(
                     [262143, 262144, 262145, 524288, 524289, 600000]))
 
         return {'op': op, 'version': version, 'short': short, 'bs': bs,
@@ -1388,16 +1388,16 @@ def run_openssh(case) -> CaseResult:
 def openssh_strategy(tier: str):
     @st.composite
     def build(draw):
-        buffer = draw(st.sampled_from([64, 512, 1000, 4096, 32768]))
-        requests = draw(st.sampled_from([1, 2, 3, 16, 64]))
+        buffer = draw(pick([64, 512, 1000, 4096, 32768]))
+        requests = draw(pick([1, 2, 3, 16, 64]))
         short = draw(st.one_of(
             st.just([0]),
-            st.lists(st.sampled_from([0, 0, 1, 7, 63, 1000]), min_size=1,
+            st.lists(pick([0, 0, 1, 7, 63, 1000]), min_size=1,
                      max_size=4)))
         unit = cost_unit(buffer, None, short)
         cap = min(100 * buffer, 150000)
         files = draw(st.lists(st.fixed_dictionaries({
-            'dir': st.sampled_from(['put', 'get']),
+            'dir': pick(['put', 'get']),
             'size': size_strategy(buffer, requests, cap, 4 * unit),
             'seed': st.integers(0, 250)}), min_size=1, max_size=3))
         return {'buffer': buffer, 'requests': requests, 'files': files,
